@@ -1977,6 +1977,156 @@ def gen_inspect(itree, mtree, out, report):
         report["inspect.py queries"] = "untranslatable: internal " + type(e).__name__ + ": " + str(e)
 
 
+# ------------------------------------------------------------------------------------------------ stratification.py: constructor and setters
+SSRC = "summer2/stratification.py"
+SHEADER = """-- GENERATED by harness/translate/gen_rates.py from /repo (summer2/stratification.py). Do not edit.
+import Summer.Model.Build
+set_option linter.unusedVariables false
+namespace Summer.Generated.StratApi
+open Summer Summer.Build Summer.Generated
+
+section
+variable {α : Type} [Zero α] [One α] [Add α] [Sub α] [Mul α] [Div α] [NatCast α] [LT α] [DecidableLT α]
+"""
+
+STRATAPI_WANT = {
+    ("Stratification", "__init__"): (["self", "name", "strata", "compartments"], [
+        "self.name = name",
+        "self.strata = list(map(str, strata))",
+        "self.compartments = [Compartment(c) if type(c) is str else c for c in compartments]",
+        "num_strata = len(self.strata)",
+        "self.population_split = {s: 1 / num_strata for s in self.strata}",
+        "self.flow_adjustments = {}",
+        "self.infectiousness_adjustments = {}",
+        "self._flow_adjustments_fs = {}",
+        "self.mixing_matrix = None",
+        "self._validate = True"]),
+    ("Stratification", "set_population_split"): (["self", "proportions"], [
+        "if all([isinstance(v, Real) for v in proportions.values()]):\n    self.validate_population_split(proportions)",
+        "self.population_split = proportions"]),
+    ("Stratification", "validate_population_split"): (["self", "proportions"], [
+        "msg = f'All strata must be specified when setting population split: {proportions}'",
+        "assert set(list(proportions.keys())) == set(self.strata), msg",
+        "msg = f'All proportions must be >= 0 when setting population split: {proportions}'",
+        "assert all([v >= 0 for v in proportions.values()]), msg",
+        "msg = f'All proportions sum to 1+/-{COMP_SPLIT_REQUEST_ERROR} when setting             population split: {proportions}'",
+        "assert abs(1 - sum(proportions.values())) < COMP_SPLIT_REQUEST_ERROR, msg"]),
+    ("Stratification", "set_flow_adjustments"): (["self", "flow_name", "adjustments", "source_strata", "dest_strata"], [
+        "source_strata = source_strata or {}",
+        "dest_strata = dest_strata or {}",
+        "msg = 'You must specify all strata when adding flow adjustments.'",
+        "assert set(adjustments.keys()) == set(self.strata), msg",
+        "adjustments = {k: enforce_multiply(v) for k, v in adjustments.items()}",
+        "msg = 'All flow adjustments must be Multiply, Overwrite or None.'",
+        "assert all([type(adj) is Overwrite or type(adj) is Multiply or adj is None for adj in adjustments.values()]), msg",
+        "msg = 'Cannot add new flow adjustments after stratification has already been applied'",
+        "assert len(self._flow_adjustments_fs) == 0, msg",
+        "if flow_name not in self.flow_adjustments:\n    self.flow_adjustments[flow_name] = []",
+        "self.flow_adjustments[flow_name].append((adjustments, source_strata, dest_strata))"]),
+    ("Stratification", "add_infectiousness_adjustments"): (["self", "compartment_name", "adjustments"], [
+        "msg = 'You must specify all strata when adding infectiousness adjustments.'",
+        "assert set(adjustments.keys()) == set(self.strata), msg",
+        "adjustments = {k: enforce_multiply(v) for k, v in adjustments.items()}",
+        "msg = 'All infectiousness adjustments must be Multiply, Overwrite or None.'",
+        "assert all([type(a) is Overwrite or type(a) is Multiply or a is None for a in adjustments.values()]), msg",
+        "msg = f'An infectiousness adjustment for {compartment_name}                 already exists for strat {self.name}'",
+        "assert compartment_name not in self.infectiousness_adjustments, msg",
+        "self.infectiousness_adjustments[compartment_name] = adjustments"]),
+    ("Stratification", "set_mixing_matrix"): (["self", "mixing_matrix"], [
+        "msg = 'Strain stratifications cannot have a mixing matrix.'",
+        "assert not self.is_strain(), msg",
+        "self.mixing_matrix = mixing_matrix"]),
+    ("AgeStratification", "__init__"): (["self", "name", "strata", "compartments"], [
+        "try:\n    _strata = sorted(map(int, strata))\nexcept Exception:\n    raise AssertionError('Strata must be in an int-compatible format')",
+        "assert _strata[0] == 0, 'First age strata must be 0'",
+        "_strata = map(str, _strata)",
+        "super().__init__(name, _strata, compartments)"]),
+}
+
+STRATAPI_LEAN = """
+/-- `stratification.py::Stratification.__init__` (`kind` is the class: `Stratification`, `AgeStratification` through `super().__init__`,
+`StrainStratification`); `1 / num_strata` raises `ZeroDivisionError` for an empty strata list; the dict comprehension keeps the first
+position of a repeated key and its last value -/
+def strat_init (kind : StratKind) (name : String) (strata : List String) (compartments : List String) : Res (Strat α) := do
+  let num_strata := strata.length
+  guardE (num_strata != 0) "ZeroDivisionError"
+  let population_split : List (String × Expr α) := strata.foldl (fun acc s => dictSet acc s (.const ((1 : α) / (num_strata : α)))) []
+  pure { kind := kind, name := name, strata := strata, comps := compartments, split := population_split, flowAdj := [], infAdj := [], mixing := none }
+
+/-- `stratification.py::AgeStratification.__init__` (`sorted(map(int, strata))`; `_strata[0]` of an empty list raises) -/
+def age_strat_init (name : String) (strata : List String) (compartments : List String) : Res (Strat α) := do
+  let ints ← strata.mapM (fun s => match s.toInt? with | some i => pure i | none => (fail "age strata must be int-compatible" : Res Int))
+  let _strata := sortInts ints
+  guardE (_strata.head? == some 0) "First age strata must be 0"
+  strat_init .age name (_strata.map toString) compartments
+
+/-- `stratification.py::Stratification.validate_population_split` for literal proportions (`keys` in the caller's order, `values` the numbers);
+`abs(1 - s) < c` is rendered as `1 - s < c` and `s - 1 < c` -/
+def validate_population_split (self : Strat α) (keys : List String) (values : List α) : Res Unit := do
+  guardE (sameSet keys self.strata) "All strata must be specified when setting population split"
+  guardE (values.all (fun v => !(decide (v < 0)))) "All proportions must be >= 0 when setting population split"
+  let s := sumL values
+  let tol : α := (1 : α) / (splitTolDen : α)
+  guardE (decide ((1 : α) - s < tol) && decide (s - 1 < tol)) "All proportions sum to 1 when setting population split"
+
+/-- `stratification.py::Stratification.set_population_split`: validated only when EVERY proportion is a plain number -/
+def set_population_split (self : Strat α) (proportions : List (String × Expr α)) : Res (Strat α) := do
+  let lits := proportions.filterMap (fun kv => Expr.isConst kv.2)
+  if lits.length == proportions.length then
+    validate_population_split self (proportions.map (·.1)) lits
+  pure { self with split := proportions }
+
+/-- `stratification.py::Stratification.set_flow_adjustments`.  `enforce_multiply` and the type assertion have no counterpart: an adjustment is a
+`Multiply`, an `Overwrite` or `None` by its type in the model; `len(self._flow_adjustments_fs) == 0` (the stratification has not been applied:
+that cache is filled by `get_flow_adjustment`) holds of every `Strat` under construction; the per-name lists of the dict are kept as ONE list
+in call order (`get_flow_adjustment` reads the declarations of one name, in that order) -/
+def set_flow_adjustments (self : Strat α) (flow_name : String) (adjustments : List (String × Option (Adj α))) (source_strata dest_strata : Option Strata) : Res (Strat α) := do
+  let source_strata := source_strata.getD []
+  let dest_strata := dest_strata.getD []
+  guardE (sameSet (adjustments.map (·.1)) self.strata) "You must specify all strata when adding flow adjustments."
+  pure { self with flowAdj := self.flowAdj ++ [{ flow := flow_name, adjs := adjustments, srcStrata := source_strata, dstStrata := dest_strata }] }
+
+/-- `stratification.py::Stratification.add_infectiousness_adjustments` -/
+def add_infectiousness_adjustments (self : Strat α) (compartment_name : String) (adjustments : List (String × Option (Adj α))) : Res (Strat α) := do
+  guardE (sameSet (adjustments.map (·.1)) self.strata) "You must specify all strata when adding infectiousness adjustments."
+  guardE (!self.infAdj.any (fun ia => ia.1 == compartment_name)) "An infectiousness adjustment for this compartment already exists"
+  pure { self with infAdj := self.infAdj ++ [(compartment_name, adjustments)] }
+
+/-- `stratification.py::Stratification.set_mixing_matrix` -/
+def set_mixing_matrix (self : Strat α) (mixing_matrix : Matrix (Expr α)) : Res (Strat α) := do
+  guardE (!self.isStrain) "Strain stratifications cannot have a mixing matrix."
+  pure { self with mixing := some mixing_matrix }
+"""
+
+
+def gen_stratapi(tree, out, report):
+    try:
+        classes = {n.name: {m.name: m for m in n.body if isinstance(m, ast.FunctionDef)} for n in tree.body if isinstance(n, ast.ClassDef)}
+        for (cname, fname), (args, wanted) in STRATAPI_WANT.items():
+            fn = classes.get(cname, {}).get(fname)
+            if fn is None:
+                raise Untranslatable(f"{cname}.{fname} not found")
+            if [a.arg for a in fn.args.args] != args:
+                raise Untranslatable(f"signature of {cname}.{fname}: " + str([a.arg for a in fn.args.args]))
+            body = [ast.unparse(st) for st in fn.body if not (isinstance(st, ast.Expr) and isinstance(st.value, ast.Constant))]
+            if body != wanted:
+                k = next((i for i, (a, b_) in enumerate(zip(body, wanted)) if a != b_), min(len(body), len(wanted)))
+                raise Untranslatable(f"{cname}.{fname}: statement {k} is not the expected text: " + (body[k][:160] if k < len(body) else "<missing>"))
+        # StrainStratification must not override the constructor or the setters
+        for fname in ("__init__", "set_population_split", "set_flow_adjustments", "add_infectiousness_adjustments", "set_mixing_matrix"):
+            if fname in classes.get("StrainStratification", {}):
+                raise Untranslatable(f"StrainStratification overrides {fname}")
+        for fname in ("set_population_split", "set_flow_adjustments", "add_infectiousness_adjustments", "set_mixing_matrix", "validate_population_split"):
+            if fname in classes.get("AgeStratification", {}):
+                raise Untranslatable(f"AgeStratification overrides {fname}")
+        out.append(STRATAPI_LEAN)
+        report["stratification.py api"] = "ok"
+    except Untranslatable as e:
+        report["stratification.py api"] = "untranslatable: " + str(e)
+    except Exception as e:
+        report["stratification.py api"] = "untranslatable: internal " + type(e).__name__ + ": " + str(e)
+
+
 # ------------------------------------------------------------------------------------------------ util.py: binary search
 USRC = "summer2/functions/util.py"
 UHEADER = """-- GENERATED by harness/translate/gen_rates.py from /repo (summer2/functions/util.py). Do not edit.
@@ -2393,6 +2543,21 @@ def main():
     if old != itext:
         with open(ipath, "w") as f:
             f.write(itext)
+    # stratification.py api
+    sout = [SHEADER]
+    try:
+        with open(os.path.join(REPO, SSRC)) as f:
+            stree = ast.parse(f.read())
+        gen_stratapi(stree, sout, report)
+    except Exception as e:
+        report["stratification.py"] = "untranslatable: " + type(e).__name__ + ": " + str(e)
+    sout.append("end\nend Summer.Generated.StratApi\n")
+    stext = "\n".join(sout)
+    spath = os.path.join(OUT, "StratApi.lean")
+    old = open(spath).read() if os.path.exists(spath) else None
+    if old != stext:
+        with open(spath, "w") as f:
+            f.write(stext)
     # util.py
     uout = [UHEADER]
     try:
